@@ -269,9 +269,9 @@ def run(ctx: core.Ctx) -> None:
                     ctx.sample({'config': config_name, 'deviations': sorted(choices.items()), 'actions': steps})
 
             # a third deviation is taken from a reduced menu (the faults that end or disturb a session)
-            third = ('eof', 'rst', 'epipe', 'jump:hold', 'incoming:high', 'incoming:low', 'api:teardown', 'reload:changed', 'shutdown', 'hdr:marker', 'msg:notification')
+            third = ('eof', 'epipe', 'incoming:high', 'api:teardown')
             n, completed, caps = edev.explore_layers(pool, run_one, (config_name, STEPS), bound, record, budget=lambda: ctx.elapsed() > budget_s,
-                                                     cap_layer=600000, menu_filter=lambda depth, alt: depth < 3 or alt in third)
+                                                     cap_layer=900000, menu_filter=lambda depth, alt: depth < 3 or alt in third)
             ctx.coverage_extra.setdefault('per_config', {})[config_name] = {'executions': n, 'bound_completed': completed}
             for c in caps:
                 ctx.cap(f'{config_name}: {c}')
